@@ -129,7 +129,7 @@ def _draw(rng, kind=None, cls=None, rel=None, cont=None, latname=None):
         weights=[bool(rng.random() < 0.4), bool(rng.random() < 0.4)],
         wform=str(rng.choice(WFORMS, p=[0.4, 0.3, 0.3])),
         latname=latname or str(rng.choice(LATNAMES)),
-        latmode=int(rng.integers(0, 3)),
+        latmode=int(rng.integers(0, 4)),
         cplx=False,
         mag=float(rng.uniform(-6, 6)),  # log10 of the relation's magnitude (shift / scaling / |c|)
         mag_y=float(rng.uniform(-6, 6)),
@@ -215,6 +215,10 @@ def _lat_values(rng, k, mode, polar_ok):
     lim = 90.0 if polar_ok else 85.0
     if mode == 0:  # regular grid pole to pole
         lat = np.linspace(-lim, lim, k) if k > 1 else np.array([float(rng.choice([-lim, 0.0, lim]))])
+    elif mode == 3:  # irregular axis with the end points (and length) of the regular pole-to-pole grids of mode 0
+        lat = np.concatenate([[-lim], np.sort(rng.uniform(-lim, lim, max(k - 2, 0))), [lim]])[:k] if k > 1 else np.array([lim])
+        if k == 2:
+            lat = np.array([-lim, lim])
     elif mode == 1:  # arbitrary reals
         lat = rng.uniform(-lim, lim, k)
     else:  # integer degrees, poles and equator likely
@@ -704,16 +708,17 @@ def _fit_cross(case, flds, Ms, cfgs, k, wforms, rng):
     import xeofs as xe
 
     cls = case["cls"]
+    seq = tuple if k % 2 else list  # per-field options are documented as sequences: tuples and lists alternate
     kw = dict(
         n_modes=k,
-        standardize=[cfgs[0]["standardize"], cfgs[1]["standardize"]],
-        use_coslat=[cfgs[0]["coslat"], cfgs[1]["coslat"]],
+        standardize=seq([cfgs[0]["standardize"], cfgs[1]["standardize"]]),
+        use_coslat=seq([cfgs[0]["coslat"], cfgs[1]["coslat"]]),
         use_pca=case["use_pca"],
         n_pca_modes="all",
         solver="full",
     )
     if cls.endswith("CPCCA"):
-        kw["alpha"] = list(case["alpha"])
+        kw["alpha"] = seq(case["alpha"])
     if cls.startswith("Hilbert"):
         kw.update(padding=case["padding"] if case["padding"] != "none" else None, decay_factor=case["decay"])
     with warnings.catch_warnings():
